@@ -804,8 +804,8 @@ def gen_request(view, rng, route_table):
         kinds.append(malform(req, route, method, view, rng))
     if not kinds:
         kinds = ['none']
-    if any(k in ('path:unknown-route', 'path:prefix', 'path:case', 'path:double-slash') for k in kinds):
-        route = '(unrouted)'
+    if any(k.startswith('path:') for k in kinds):
+        route = match_route(req['path'])
     return req, route, kinds, version
 
 
@@ -1024,6 +1024,10 @@ def causes_of(req, route):
         except RecursionError:
             out.add('deeply-nested-json')
     for k, v in req.get('query') or []:
+        if isinstance(v, str) and k.startswith('resources'):
+            for m in re.finditer(r':(\d{19,})', v):
+                if int(m.group(1)) >= 2 ** 63:
+                    out.add('resources-amount-exceeds-int64')
         if isinstance(v, bytes):
             try:
                 import urllib.parse
@@ -1031,6 +1035,50 @@ def causes_of(req, route):
             except UnicodeDecodeError:
                 out.add('query-not-utf8')
     return sorted(out)
+
+
+INVENTORY_WRITES = {('PUT', '/resource_providers/{uuid}/inventories'), ('POST', '/resource_providers/{uuid}/inventories'),
+                    ('PUT', '/resource_providers/{uuid}/inventories/{resource_class}'), ('POST', '/reshaper')}
+
+
+def signature_5xx(req, route, cls, site):
+    """(method, route template, recognised kind of malformation | exception class@innermost placement frame)"""
+    cz = causes_of(req, route)
+    what = None
+    if cls == 'RecursionError':
+        what = 'deeply-nested-json'
+    elif cls == 'UnicodeDecodeError' and 'query-not-utf8' in cz:
+        what = 'query-not-utf8'
+    elif cls in ('DBError', 'OverflowError') and 'resources-amount-exceeds-int64' in cz and req['method'] == 'GET':
+        what = 'resources-amount-exceeds-int64'
+    else:
+        rel = []
+        if (req['method'], route) in INVENTORY_WRITES:
+            rel += [c for c in cz if c in ('non-finite-allocation_ratio', 'unvalidated-inventories-key')]
+        if (req['method'], route) == ('POST', '/resource_classes'):
+            rel += [c for c in cz if c == 'name-with-trailing-newline']
+        if rel:
+            what = '+'.join(sorted(rel))
+    return 'c15:5xx:%s %s:%s' % (req['method'], route, what or '%s@%s' % (cls, site))
+
+
+_ROUTE_RES = None
+
+
+def match_route(path):
+    """the ROUTE_DECLARATIONS template the (percent-decoded) path falls under, or '(unrouted)'"""
+    global _ROUTE_RES
+    import urllib.parse
+    if _ROUTE_RES is None:
+        _ROUTE_RES = [(t, re.compile('^' + re.sub(r'\\\{\w+\\\}', '[^/]+', re.escape(t)) + '$')) for t in sorted(routes())]
+    p = urllib.parse.unquote_to_bytes(path.encode('utf-8', 'surrogatepass')).decode('latin-1')
+    for t, rx in _ROUTE_RES:
+        if rx.match(p) and '\n' not in p:
+            return t
+    for t, rx in _ROUTE_RES:
+        if rx.match(p):
+            return t
+    return '(unrouted)'
 
 
 def worker(args):
@@ -1081,10 +1129,7 @@ def worker(args):
         if status >= 500:
             cls, site, msg = _captured[-1] if _captured else ('?', '?', body[:200].decode('latin-1'))
             tally('error_kinds', '%d %s@%s' % (status, cls, site))
-            cz = causes_of(req, route)
-            if cls == 'RecursionError' and 'deeply-nested-json' not in cz:
-                cz = sorted(cz + ['deeply-nested-json'])
-            sig = 'c15:5xx:%s %s:%s' % (req['method'], route, '+'.join(cz) if cz else '%s@%s' % (cls, site))
+            sig = signature_5xx(req, route, cls, site)
             violation('monitor', sig, '%d: %s: %s' % (status, cls, msg),
                       replay_obj(sname, req, route, kinds, '%d %s at %s: %s' % (status, cls, site, msg), '4xx'))
         # ---- monitor: error body
